@@ -1108,8 +1108,7 @@ class StTr:
             return self.attr_write(tgt.attr, value, k)
         if isinstance(tgt, (ast.Tuple, ast.List)) and all(isinstance(e, ast.Name) for e in tgt.elts):
             names = [e.id for e in tgt.elts]
-            if isinstance(value, ast.Tuple) and len(value.elts) == len(names) and not (
-                    len(names) == 2 and False):
+            if isinstance(value, ast.Tuple) and len(value.elts) == len(names):
                 # parallel assignment: all right-hand sides first
                 def then(vs):
                     def go(i):
@@ -1133,11 +1132,7 @@ class StTr:
             def then2(v):
                 if v.ty is None or v.ty.k != "P":
                     raise Shape("unpacking of a non-pair")
-                if v.c is None and v.p == 100 and re.match(r"^\w+$", v.t):
-                    # a named pair (bound by a match): the names are its components
-                    cs = [comp(v, 0), comp(v, 1)]
-                else:
-                    cs = [comp(v, 0), comp(v, 1)]
+                cs = [comp(v, 0), comp(v, 1)]
 
                 def go(i):
                     if i == 2:
